@@ -389,6 +389,16 @@ def r2_4(ctx):
                     r = cu.strip_casts(g, g.kid(x, 1))
                     if r is not None and (r.get('mn') or '').startswith('RE_FLAGS_'):
                         pairs[cu.const_of(r)] = (bt[1], r['mn'])
+        # the same as a conditional expression: (STRING_IS_X(s) ? RE_FLAGS_Y : 0)
+        for n in g.all_nodes():
+            if n['k'] != 'cond':
+                continue
+            bt = _bit_test(g, g.kid(n, 0))
+            if bt is None or not bt[0].endswith('->flags'):
+                continue
+            a1, a2 = cu.strip_casts(g, g.kid(n, 1)), cu.strip_casts(g, g.kid(n, 2))
+            if a1 is not None and (a1.get('mn') or '').startswith('RE_FLAGS_') and cu.const_of(a2) == 0:
+                pairs[cu.const_of(a1)] = (bt[1], a1['mn'])
     ctx.require(len(pairs) >= 2 or ctx.fixture, 'scanner-side flag reconstruction not found')
     # which parser entry can put which RE_FLAGS_* on the AST
     red = prog.fn('yr_parser_reduce_string_declaration', 'libyara/parser.c')
